@@ -113,3 +113,11 @@ Definition check_subscription (c : list evclass * list Z) : bool :=
    the listener of pool p after the history l *)
 Definition check_world (c : list wop * evclass * Z * Z) : bool :=
   let '(l, cl, p, n) := c in world_deliveries (wrun l) cl p =? n.
+
+(* two or more pools with listeners that answer OK / FAIL: per pool the serials of
+   the envelopes its listener received, in order *)
+Definition check_reject (c : list (Z * list evclass) * list rop * list (Z * list Z)) : bool :=
+  let '(ps, l, r) := c in
+  let w := rrun (map (fun e => (fst e, new_pool (snd e))) ps) l in
+  list_eqb (fun x y => (fst x =? fst y) && zlist_eqb (snd x) (snd y))
+           (map (fun e => (fst e, sent_of w (fst e))) ps) r.
